@@ -38,7 +38,9 @@ func vfSuiteByName(name string) vfSuiteInfo {
 
 func vfC02Variants() []vfVariant {
 	var vs []vfVariant
-	add := func(name string, c vfCfg, resumed bool) { vs = append(vs, vfVariant{Name: name, Cfg: c, Resumed: resumed}) }
+	add := func(name string, c vfCfg, resumed bool) {
+		vs = append(vs, vfVariant{Name: name, Cfg: c, Resumed: resumed})
+	}
 	c := vfBaseCfg(vfSuiteByName("ECDSA-GCM128"), "ecdsa")
 	add("12-ecdsa", c, false)
 	c = vfBaseCfg(vfSuiteByName("RSA-GCM128"), "rsa")
@@ -87,6 +89,23 @@ func vfC02Variants() []vfVariant {
 	c = vfBaseCfg(vfSuiteByName("13-GCM128"), "ecdsa")
 	c.CVer, c.SVer, c.HelloVerify = "dual", "dual", false
 	add("dual-13", c, false)
+	// true dual-stack endpoints: default suite lists of both versions, version settled by negotiation
+	c = vfBaseCfg(vfSuiteInfo{Name: "default", Auth: "ecdsa"}, "ecdsa")
+	c.CVer, c.SVer, c.Verify = "dual", "dual", true
+	add("dualstack-both", c, false)
+	c.HelloVerify = false
+	add("dualstack-both-nohv", c, false)
+	c = vfBaseCfg(vfSuiteInfo{Name: "default", Auth: "ecdsa"}, "ecdsa")
+	c.CVer, c.SVer = "dual", "12"
+	add("dualstack-client-12server", c, false)
+	c.CVer, c.SVer = "13", "dual"
+	add("13client-dualstack-server", c, false)
+	// small ServerHello (classical curve only): the DTLS 1.3 server packs its protected flight into the same datagram
+	c = vfBaseCfg(vfSuiteInfo{Name: "default", Auth: "ecdsa"}, "ecdsa")
+	c.CVer, c.SVer, c.Curves, c.HelloVerify = "dual", "13", 1, false
+	add("dualstack-client-13server-x25519", c, false)
+	c.SVer = "dual"
+	add("dualstack-both-x25519", c, false)
 
 	return vs
 }
